@@ -192,25 +192,26 @@ def header_reader_rule(prog, res, rule='header-read', int_scale_ok=False):
         inner = [x[1] for x in zl['items'] if x[0] == 'io']
         okz = any(d.get('k') == 'readUint' and d.get('dest') == 'this._parametersAddress' and width_const(d) == 1 and 'skip' not in d for d in inner)
         # the counter
+        zf = zl.get('fn') or f     # the loop may live in a member the reader was split into
         cnt = False
-        for n in f.nodes:
+        for n in zf.nodes:
             if n['k'] == 'UnaryOperator' and n['op'] == '++':
-                m = f.nodes[f.strip(n['ch'][0], 'all')]
-                if m['k'] == 'MemberExpr' and m['member'] == '_nbOfZerosBeforeHeader' and n['id'] in f.descendants(zl['node']):
+                m = zf.nodes[zf.strip(n['ch'][0], 'all')]
+                if m['k'] == 'MemberExpr' and m['member'] == '_nbOfZerosBeforeHeader' and n['id'] in zf.descendants(zl['node']):
                     cnt = True
-        loopn = f.nodes[zl['node']]
-        cond = Renderer(f).render(loopn['cond']) if 'cond' in loopn else ''
+        loopn = zf.nodes[zl['node']]
+        cond = Renderer(zf).render(loopn['cond']) if 'cond' in loopn else ''
         WHILE0 = ('!((bool)this._parametersAddress)', '(this._parametersAddress == 0)', '(0 == this._parametersAddress)', '!(this._parametersAddress != 0)')
         UNTIL = ('(bool)this._parametersAddress', '(this._parametersAddress != 0)', '(0 != this._parametersAddress)', '!(this._parametersAddress == 0)', '(this._parametersAddress > 0)')
         form = cond in WHILE0
         if not form and cond == '' and 'body' in loopn:
             # for (;;) { if (<non-zero>) break; ... }
-            b_ = f.nodes[loopn['body']]
-            st0 = f.nodes[b_['ch'][0]] if b_['k'] == 'CompoundStmt' and b_['ch'] else None
+            b_ = zf.nodes[loopn['body']]
+            st0 = zf.nodes[b_['ch'][0]] if b_['k'] == 'CompoundStmt' and b_['ch'] else None
             if st0 is not None and st0['k'] == 'IfStmt' and 'else' not in st0:
-                th_ = f.nodes[st0['then']]
-                only_break = th_['k'] == 'BreakStmt' or (th_['k'] == 'CompoundStmt' and len(th_['ch']) == 1 and f.nodes[th_['ch'][0]]['k'] == 'BreakStmt')
-                if only_break and Renderer(f).render(st0['cond']) in UNTIL:
+                th_ = zf.nodes[st0['then']]
+                only_break = th_['k'] == 'BreakStmt' or (th_['k'] == 'CompoundStmt' and len(th_['ch']) == 1 and zf.nodes[th_['ch'][0]]['k'] == 'BreakStmt')
+                if only_break and Renderer(zf).render(st0['cond']) in UNTIL:
                     form = True
         if okz and cnt and form:
             res.ok(rule, 'header.leading_zeros', zl['where'], 'zero bytes before the header are skipped one at a time and counted in _nbOfZerosBeforeHeader', function=f.sig, expr='zero-skip')
@@ -799,6 +800,8 @@ def recursion_scheme(prog, f, cur_param, dim_param, leaf_kind):
         return None
     if len(top) == 1 and top[0][0] == 'loop':
         lp = top[0]
+        if lp[1] is None:
+            return False, 'shape: the loop is not a counted loop over dim[currentIdx] (trip count not tabulated)', None
         if pshow(lp[1]) != BOUND:
             return False, 'loop bound is %s, expected dim[currentIdx]' % pshow(lp[1]), None
         inner = io_only(lp[3])
@@ -821,6 +824,8 @@ def recursion_scheme(prog, f, cur_param, dim_param, leaf_kind):
         if len(lf_) != 1 or lf_[0][0] != 'loop' or len(rc_) != 1 or rc_[0][0] != 'loop':
             return False, 'shape: the two depth branches are not one loop each', None
         for lp in (lf_[0], rc_[0]):
+            if lp[1] is None:
+                return False, 'shape: a depth branch is not a counted loop (trip count not tabulated)', None
             if pshow(lp[1]) != BOUND:
                 return False, 'loop bound is %s, expected dim[currentIdx]' % pshow(lp[1]), None
         why = rec_ok(io_only(rc_[0][3]))
@@ -920,7 +925,14 @@ def parameter_writer_rule(prog, res, rule='parameter-write'):
         ck.failed = ck.failed or c1.failed or c2.failed
     # payload
     alt = ck.take(('alt',))
-    o = orient(alt, ('(local:hasSize > 0)', '(local:hasSize != 0)', '(local:hasSize >= 1)')) if alt is not None else None
+    POS = ['(local:hasSize > 0)', '(local:hasSize != 0)', '(local:hasSize >= 1)']
+    # ... or the count comes straight from a count helper:  H(_dimension) > 0
+    import validators as _Vc
+    for n_ in f.calls():
+        if n_['k'] == 'CallExpr' and n_['callee'].get('inrepo') and _Vc.count_helper(prog, n_['callee']['usr']) is not None:
+            hr = Renderer(f).render(n_['id'])
+            POS += ['(%s > 0)' % hr, '(%s != 0)' % hr, '(%s >= 1)' % hr, '((int)%s > 0)' % hr]
+    o = orient(alt, tuple(POS)) if alt is not None else None
     if alt is None or o is None:
         ck.shape('data', ck.where(alt or ck.peek()), 'expected the payload to be written iff the element count is positive, found %s' % _describe(alt or ck.peek()))
     elif io_only(o[1]):
@@ -951,6 +963,12 @@ def has_size_rule(prog, res, rule, f):
                     lf = normal_for(f, fs[0])
                     if lf and lf['start_cv'] == '0' and lf['op'] == '<' and R.render(lf['bound']) == 'this._dimension.size' and lf['name'] == m.group(2):
                         ok = True
+    if not ok:
+        # the count handed back by a helper: 0 for no dimension, else the product of the dimensions
+        import validators
+        for n in f.calls():
+            if n['k'] == 'CallExpr' and n['callee'].get('inrepo') and validators.count_helper(prog, n['callee']['usr']) is not None and R.render(f.call_args(n)[0]) == 'this._dimension':
+                ok = True
     if ok:
         res.ok(rule, 'parameter.data.count', f.loc(), 'element count = product over all dimensions', function=f.sig, expr='parameter.data.count')
     else:
@@ -2395,14 +2413,33 @@ def copy_completeness_rule(prog, res, rule='copy-complete'):
                 res.ok(rule, short, f.loc(), 'constructed from the source\'s %d components [begin, begin + %d)' % (K, K), function=f.sig, expr=fl['name'])
                 continue
             if K:
+                # std::copy_n(src.begin(), K, dst.begin()) / std::copy(src.begin(), src.end() | src.begin() + K, dst.begin())
+                whole = False
+                for m in f.calls():
+                    q_ = m.get('callee', {}).get('qname')
+                    a_ = [R.render(x).replace(' ', '') for x in f.call_args(m)] if q_ in ('std::copy_n', 'std::copy') else []
+                    if q_ == 'std::copy_n' and len(a_) == 3 and a_[0] == src + '.begin()' and re.sub(r'^\([^)]*\)', '', a_[1]) == str(K) and a_[2] == base + '.begin()':
+                        whole = True
+                    if q_ == 'std::copy' and len(a_) == 3 and a_[0] == src + '.begin()' and a_[2] == base + '.begin()' and \
+                            a_[1] in (src + '.end()', '%s.begin().operator+(%d)' % (src, K), '(%s.begin()+%d)' % (src, K)):
+                        whole = True
+                if whole:
+                    res.ok(rule, short, f.loc(), 'all %d components copied by one std::copy over the source range' % K, function=f.sig, expr=fl['name'])
+                    continue
                 bad = None
+                partial = False
+                for k in range(K):
+                    if got.get('%s[%d]' % (base, k)) is not None:
+                        partial = True
                 for k in range(K):
                     s = got.get('%s[%d]' % (base, k))
                     s2 = re.sub(r'^\((float|double|int|unsigned long)\)', '', s) if s else s
                     if s2 != '%s[%d]' % (src, k):
                         bad = 'component %s[%d] receives %s instead of the source\'s %s[%d]' % (fl['name'], k, s, fl['name'], k)
                         break
-                if bad:
+                if bad and not partial and any(base in R.render(x) for m in f.calls() for x in f.call_args(m)):
+                    res.undecided(rule, short, f.loc(), 'the components of %s are filled through a call the rule does not tabulate [shape not read by the rule]' % fl['name'], function=f.sig, expr=fl['name'])
+                elif bad:
                     res.viol(rule, short, f.loc(), bad, function=f.sig, expr=fl['name'])
                 else:
                     res.ok(rule, short, f.loc(), 'all %d components copied slot by slot' % K, function=f.sig, expr=fl['name'])
